@@ -20,9 +20,9 @@ from vmc.c01 import _write_pins, enumerate_cases, enumerate_plan
 from vmc.common import HarnessError, Report, pmap
 
 BACKTICK = sqlgen.BACKTICK
-KINDS = ["nl", "nl1", "tab", "blank", "block", "line", "kwupper", "idupper", "quote", "semi", "semi_block", "semi_line"]
+KINDS = ["nl", "nl1", "tab", "blank", "block", "mblock", "line", "kwupper", "idupper", "quote", "semi", "semi_block", "semi_line"]
 LEGACY = "non-validating"
-LEGACY_KINDS = {"nl", "nl1", "tab", "kwupper"}  # the sqlparse-based analyzer: existing blanks re-laid out, keyword case
+LEGACY_KINDS = {"nl", "nl1", "tab", "kwupper", "mblock"}  # the sqlparse-based analyzer: existing blanks re-laid out, keyword case
 
 
 def lex(sql, dialect):
@@ -57,6 +57,7 @@ def sites(toks, dialect):
             out.append(("blank", i))
         if i > 0:
             out.append(("block", i))
+            out.append(("mblock", i))
             out.append(("line", i))
         if k == "kw" and raw != raw.upper():
             out.append(("kwupper", i))
@@ -83,6 +84,8 @@ def apply(toks, dialect, chosen):
             pre += " "
         if "block" in ks:
             pre += " /* c;c */ " if k != "ws" and toks[i - 1][1] != "ws" else "/* c;c */"
+        if "mblock" in ks:  # a block comment that spans a line break
+            pre += " /* c;\n c */ " if k != "ws" and toks[i - 1][1] != "ws" else "/* c;\n c */"
         if "line" in ks:
             pre += " -- c;c\n"
         if "nl" in ks:
@@ -160,7 +163,7 @@ def _eval(task):
         if len(ss) > 1:
             plan.append(ss)
     if variants == "pairs":
-        plan += [list(p) for p in itertools.combinations(all_sites, 2) if p[0][1] != p[1][1] or {p[0][0], p[1][0]} <= {"blank", "block", "line", "kwupper", "idupper", "quote", "nl"} and p[0][0] != p[1][0]]
+        plan += [list(p) for p in itertools.combinations(all_sites, 2) if p[0][1] != p[1][1] or {p[0][0], p[1][0]} <= {"blank", "block", "mblock", "line", "kwupper", "idupper", "quote", "nl"} and p[0][0] != p[1][0]]
     out = []
     n = skipped = 0
     inner_texts = set()
